@@ -114,6 +114,49 @@ def r2_length_keywords(chk: Check) -> None:
         chk.expect(phas("$p[0] in $_", ifa.node) and phas("$p[-1] in $_", ifa.node), "C01.R2", ifa, "anchoredness = first and last parsed element are anchors", "shape not recognised", ifa.loc())
 
 
+
+def r2b_width_checked(chk: Check) -> None:
+    chk.rule("C01.R2b", "DOMINATED(use of the pattern with merged length bounds, width evidence): update_quantifier puts the length bounds into a REPETITION count, which equals the string length only for a one-character element; the rewritten pattern replaces the declared one (and the keywords are dropped) only behind a test of the new pattern's match width against the bounds (`sre_parse.parse(p).getwidth()`) - otherwise `^([0-9a-f]{2})+$` with maxLength 8 yields 16-character values, and `(ab)+` with minLength = maxLength = 5 becomes unsatisfiable", floor=1)
+    P = chk.project
+    fn = P.func(f"{CONV}:update_pattern_in_schema")
+    g = cfg_of(fn)
+    stores = [s_ for s_ in walk_body(fn.node) if isinstance(s_, ast.Assign) and any(isinstance(t, ast.Subscript) and const_str(t.slice) == "pattern" for t in s_.targets)]
+    if not stores:
+        chk.ok("C01.R2b", fn, "the declared pattern is not replaced", "", fn.loc())
+        return
+
+    def is_width_evidence(e: ast.expr) -> bool:
+        for c in ast.walk(e):
+            if isinstance(c, ast.Call):
+                if last_attr(c) == "getwidth":
+                    return True
+                r = P.resolve_call(fn, c)
+                if r and r[0] == "func" and any(isinstance(x, ast.Call) and last_attr(x) == "getwidth" for x in ast.walk(r[1].node)):  # type: ignore[union-attr]
+                    return True
+        return False
+
+    for st in stores:
+        nodes = g.stmt_nodes_containing(st)
+        # facts fixed at the store by the dominating test edges (nested `if`, guard clause - the spelling does not matter)
+        ok = False
+        for key, val in known_conditions(g, nodes).items():
+            if not val:
+                continue
+            try:
+                e_ = ast.parse(key, mode="eval").body
+            except SyntaxError:
+                continue
+            if is_width_evidence(e_):
+                ok = True
+        construct = f"`{unparse(st, 40)}` only when the new pattern's width fits the bounds"
+        if ok:
+            chk.ok("C01.R2b", fn, construct, "", fn.loc(st))
+        else:
+            chk.violation("C01.R2b", fn, construct,
+                          "the pattern with the merged quantifier is used without checking that its match width lies within minLength..maxLength: the quantifier counts repetitions of the (possibly multi-character) element, not characters - anchored: `^(ab)+$` maxLength 5 -> `^(ab){1,5}$`, keyword dropped, positive data `ababab`; unanchored: `(ab)+` with 5..5 -> `(ab){5}` plus the kept keywords = unsatisfiable",
+                          fn.loc(st))
+
+
 def r3_property_stripping(chk: Check) -> None:
     chk.rule("C01.R3", "SIBLINGS-AGREE(request/response stripping): requests drop readOnly properties, responses drop writeOnly ones", floor=1)
     from .c04 import r6_copy_discipline  # the polarity check lives there; re-evaluated under this property's id
@@ -322,4 +365,4 @@ def r8_forbid_each(chk: Check) -> None:
 
 
 def rules(tier: str) -> list:  # type: ignore[type-arg]
-    return [r1_generator_plumbing, r2_length_keywords, r3_property_stripping, r4_path_location, r5_filters_only_narrow, r6_token_kinds_agree, r7_traversal_order, rfwd_forwarding, r8_forbid_each]
+    return [r1_generator_plumbing, r2_length_keywords, r2b_width_checked, r3_property_stripping, r4_path_location, r5_filters_only_narrow, r6_token_kinds_agree, r7_traversal_order, rfwd_forwarding, r8_forbid_each]
